@@ -17,7 +17,12 @@ def policies(tier):
     for e in (("pctsp", "sdvrp", "cvrptw", "mtsp") if tier == "quick" else ("pctsp", "sdvrp", "cvrptw", "mtsp", "spctsp", "svrp")):
         if True:
             out.append(("AM", e, (lambda e=e: AttentionModelPolicy(env_name=e, embed_dim=32, num_encoder_layers=1, num_heads=2))))
-    # PointerNetwork has its own forward loop (no encoder/decoder split): not covered by the reference loop
+    # PointerNetwork has its own forward loop (no encoder/decoder split): no reference loop, round trips only
+    try:
+        from rl4co.models.zoo import PointerNetworkPolicy
+        out.append(("PtrNet", "tsp", lambda: PointerNetworkPolicy(env_name="tsp", embed_dim=32, hidden_dim=32)))
+    except Exception:
+        pass
     try:
         from rl4co.models.zoo import HeterogeneousAttentionModelPolicy
         out.append(("HAM", "pdp", lambda: HeterogeneousAttentionModelPolicy(env_name="pdp", embed_dim=32, num_encoder_layers=1, num_heads=2)))
@@ -34,7 +39,7 @@ def masked_logp(logits, mask, tanh, temp):
     return torch.log_softmax(x, dim=-1)
 
 
-def reference(policy, env, td0, actions, num_starts, multistart):
+def reference(policy, env, td0, actions, num_starts, multistart, temperature=None):
     """independent loop: encoder once, decoder per step, own masked log-softmax (float64), teacher forcing"""
     from rl4co.utils.ops import batchify
 
@@ -57,7 +62,7 @@ def reference(policy, env, td0, actions, num_starts, multistart):
     td, env, hidden = policy.decoder.pre_decoder_hook(td, env, hidden, num_starts)
     for t in range(t0, T):
         logits, mask = policy.decoder(td, hidden, num_starts)
-        lp = masked_logp(logits, mask, policy.tanh_clipping, policy.temperature)
+        lp = masked_logp(logits, mask, policy.tanh_clipping, temperature if temperature is not None else policy.temperature)
         ref.append(lp.gather(1, actions[:, t:t + 1]).squeeze(1))
         masks.append(mask.clone())
         forced.append(False)
@@ -80,33 +85,65 @@ def records(tier, seed):
             continue
         B = 3
         td0 = env.reset(batch_size=[B])
-        for mode in ("greedy", "sampling", "multistart_greedy", "multistart_sampling"):
-            kw = {}
+        has_ref = pname != "PtrNet"
+        # second pass with amplified weights (peaked distributions: index / ordering mistakes become visible) and a
+        # non-default temperature given as decoding argument
+        variants = [(1.0, None, ("greedy", "sampling", "multistart_greedy", "multistart_sampling")),
+                    (4.0, 0.5, ("sampling", "multistart_sampling") if tier == "quick" else
+                     ("greedy", "sampling", "multistart_greedy", "multistart_sampling"))]
+        for (amp, temp, modes) in variants:
+          if amp != 1.0:
+            with torch.no_grad():
+                for prm in policy.parameters():
+                    if prm.dim() > 1:
+                        prm.mul_(amp)
+          tkw = {} if temp is None else {"temperature": temp}
+          for mode in modes:
+            kw = dict(tkw)
             K = 0
             if "multistart" in mode:
-                if ename in ("fjsp", "jssp"):
+                if ename in ("fjsp", "jssp") or not has_ref:
                     continue
                 K = 3
-                kw = {"num_starts": K}
+                kw["num_starts"] = K
             with torch.no_grad():
                 torch.manual_seed(seed + 1)
-                out = policy(td0.clone(), env, decode_type=mode, return_sum_log_likelihood=False, **kw)
+                out = policy(td0.clone(), env, phase="test", decode_type=mode, return_sum_log_likelihood=False, **kw)
                 actions = out["actions"]
                 torch.manual_seed(seed + 1)
-                out_sum = policy(td0.clone(), env, decode_type=mode, return_sum_log_likelihood=True, **kw)
+                out_sum = policy(td0.clone(), env, phase="test", decode_type=mode, return_sum_log_likelihood=True, **kw)
                 same = torch.equal(out_sum["actions"], actions)
-                ref, masks, forced = reference(policy, env, td0, actions, K if K else 0, "multistart" in mode)
-                if "multistart" not in mode:
-                    ev = policy(td0.clone(), env, actions=actions, return_sum_log_likelihood=False)
+                if has_ref:
+                    ref, masks, forced = reference(policy, env, td0, actions, K if K else 0, "multistart" in mode, temp)
+                else:
+                    ref = out["log_likelihood"]
+                    forced = [False] * actions.shape[1]
+                    masks = [torch.ones(actions.shape[0], td0["action_mask"].shape[-1], dtype=torch.bool)] * actions.shape[1]
+                if pname == "PtrNet":     # its evaluation entry point is `eval_tours`
+                    ev = policy(td0.clone(), env, phase="test", decode_type=mode, eval_tours=actions)
+                elif "multistart" not in mode:
+                    ev = policy(td0.clone(), env, actions=actions, return_sum_log_likelihood=False, **tkw)
                 else:
                     # every replica re-evaluated as an ordinary (non multi-start) row of its own instance: no batchify,
                     # no cache regrouping on this path, so a replica that was decoded with another instance's
                     # embeddings shows up as a log-probability mismatch on the non-forced steps
                     idx = torch.arange(actions.shape[0]) % B
-                    ev = policy(td0[idx].clone(), env, actions=actions, return_sum_log_likelihood=False)
+                    ev = policy(td0[idx].clone(), env, actions=actions, return_sum_log_likelihood=False, **tkw)
+            if out["log_likelihood"].dim() == 1:
+                # the policy only reports the summed log-likelihood (PointerNetwork): one pseudo-step per row, so that
+                # the sum and the evaluate round trip are still checked
+                for r in range(actions.shape[0]):
+                    s_ = int(round(float(out["log_likelihood"][r]) * 1e6))
+                    recs.append({"policy": pname, "env": ename, "mode": mode + ("" if amp == 1.0 else "/amp%g/T%g" % (amp, temp)),
+                                 "row": r, "actions": [1], "mask": [[1]], "lp": [s_], "ref": [s_], "forced": [False],
+                                 "ll_sum": int(round(float(out_sum["log_likelihood"][r]) * 1e6)) if same else s_,
+                                 "eval_lp": [int(round(float(ev["log_likelihood"].reshape(actions.shape[0], -1).sum(-1)[r]) * 1e6))],
+                                 "reward": int(round(float(out["reward"][r]) * 1e6)),
+                                 "eval_reward": int(round(float(ev["reward"][r]) * 1e6))})
+                continue
             for r in range(actions.shape[0]):
                 recs.append({
-                    "policy": pname, "env": ename, "mode": mode, "row": r,
+                    "policy": pname, "env": ename, "mode": mode + ("" if amp == 1.0 else "/amp%g/T%g" % (amp, temp)), "row": r,
                     "actions": [int(a) + 1 for a in actions[r].tolist()],
                     "mask": [[i + 1 for i in m[r].nonzero().flatten().tolist()] for m in masks],
                     "lp": [int(round(float(x) * 1e6)) for x in out["log_likelihood"][r].tolist()],
